@@ -108,3 +108,48 @@ Fixpoint split_on (sep : N) (cur : list N) (l : list N) : list (list N) :=
   end.
 Definition read_version (sep : N) (b : list N) : bool * list (list N) :=
   (negb (byte b 0 =? 0), split_on sep [] (firstn (N.to_nat (byte b 1)) (skipn 2 b))).
+
+(* ======================= control messages (what a command frame asks for) =========== *)
+(* the change a control field requests *)
+Inductive change (A : Type) := Keep | SetTo (a : A) | Toggle | Decrease | Increase | NotDefined.
+Arguments Keep {A}. Arguments SetTo {A} a. Arguments Toggle {A}. Arguments Decrease {A}. Arguments Increase {A}.
+Arguments NotDefined {A}.
+
+Inductive zone_value := Percent (p : N) | SetPointDeg (t : Z).      (* t in tenths of a degree *)
+Inductive method := ByPercentage | ByTemperature.
+Inductive zone_power := ZOff | ZOn | ZTurbo.
+Inductive onoff := POff | POn | PAway | PSleep.
+
+(* ------------------------------------------ 4.a group control message (0x2A) *)
+Record sgroup_ctrl := mkSGC {
+  sgc_group : N;
+  sgc_value : change zone_value;      (* "Group setting value" + byte 3 *)
+  sgc_method : change method;         (* "Set percentage or temperature control" *)
+  sgc_power : change zone_power }.
+
+Definition read_group_ctrl (b1 b2 b3 : N) : sgroup_ctrl :=
+  mkSGC b1
+    (match bits b2 8 6 with
+     | 0 => Keep | 2 => Decrease | 3 => Increase
+     | 4 => SetTo (Percent b3) | 5 => SetTo (SetPointDeg (Z.of_N b3 * 10)) | _ => NotDefined end)
+    (match bits b2 5 4 with 0 => Keep | 1 => Toggle | 2 => SetTo ByPercentage | _ => SetTo ByTemperature end)
+    (match bits b2 3 1 with
+     | 0 => Keep | 1 => Toggle | 2 => SetTo ZOff | 3 => SetTo ZOn | 5 => SetTo ZTurbo | _ => NotDefined end).
+
+(* --------------------------------------------- 4.c AC control message (0x2C) *)
+Record sac_ctrl := mkSAC {
+  sac_number : N;
+  sac_power : change onoff;
+  sac_mode : change amode;            (* "Other: Keep mode setting" *)
+  sac_fan : change afan;              (* "Other: Keep fan speed setting" *)
+  sac_setpoint : change Z }.          (* tenths of a degree *)
+
+Definition read_ac_ctrl (b1 b2 b3 : N) : sac_ctrl :=
+  mkSAC (bits b1 6 1)
+    (match bits b1 8 7 with 0 => Keep | 1 => Toggle | 2 => SetTo POff | _ => SetTo POn end)
+    (match bits b2 8 5 with
+     | 0 => SetTo AMS_Auto | 1 => SetTo AMS_Heat | 2 => SetTo AMS_Dry | 3 => SetTo AMS_Fan | 4 => SetTo AMS_Cool | _ => Keep end)
+    (match bits b2 4 1 with
+     | 0 => SetTo AFS_Auto | 1 => SetTo AFS_Quiet | 2 => SetTo AFS_Low | 3 => SetTo AFS_Medium | 4 => SetTo AFS_High
+     | 5 => SetTo AFS_Powerful | 6 => SetTo AFS_Turbo | _ => Keep end)
+    (match bits b3 8 7 with 0 => Keep | 1 => SetTo (Z.of_N (bits b3 6 1) * 10)%Z | 2 => Decrease | _ => Increase end).
